@@ -50,6 +50,9 @@ def check(ctx):
     # the free-text expression is not cut, every ODE-modifier entry owns fresh lists
     from .c20 import _r4_r6_r7 as option_rules
     ctx.absorb(lambda sub: option_rules(sub, package(sub.tree)), "R9", only=lambda o: "modifier" in o.key and o.outcome != "MISSING")
+    # occurrences count: no set / dict keyed by the species stands between a reactant list and the terms built from it
+    from ..multiplicity import rule as multiplicity_rule
+    multiplicity_rule(ctx, "R10", ['ode'], "the modifier term")
 
 
 # ------------------------------------------------------------------ R6  command line: every term is accumulated
